@@ -144,6 +144,7 @@ def m_rename_race(f, case, viol):
         rp = (_unquiesced_related(case, lambda u: u[2] == "rename", other_side_only=True) or set()) | _vacated_name_reuse(case)
         if not rp:
             return False
+        rp = _rename_closure(case, rp)      # the contended object's other names (b -> c -> a: a difference may show under b)
     if viol["cls"] in ("nonquiescent",):
         return True
     paths = _diff_paths(viol)
